@@ -46,6 +46,9 @@ pub enum Variable {
 }
 
 impl Variable {
+    /// `depth` counts the mutable cells passed on the way: only cells can form a cycle, so only
+    /// they are elided (`..`); arrays, tuples and structs of any depth are rendered in full and
+    /// their text can be parsed back.
     fn string(&self, depth: u8) -> String {
         if depth > 5 {
             return "..".into();
@@ -58,7 +61,7 @@ impl Variable {
             | Variable::Function(value) => format!("{value}"),
             Variable::Array(value) => value.string(depth),
             Variable::Mut(value) => value.string(depth+1),
-            Variable::Tuple(elements) => format!("({})", elements.iter().map(|v| v.debug(depth+1)).collect::<Box<[_]>>().join(", ")),
+            Variable::Tuple(elements) => format!("({})", elements.iter().map(|v| v.debug(depth)).collect::<Box<[_]>>().join(", ")),
             Variable::Struct(vm) => {
                 let elements = vm.iter().map(|(key, value)| format!("{}={}", key, value.debug(depth))).join(", ");
                 format!("struct{{{elements}}}")
